@@ -32,10 +32,7 @@ LEVEL_NOTE = ("floating-point rounding not modelled (rel 1e-9); numpy.random var
               "rounding (oracle tolerance 1e-15); a draw of exactly "
               "0.0 in GQRS (y = 1, lepton energy 0 -> OverflowError in int(log10(0))) is outside the model; "
               "distributional agreement is proved as the inverse-CDF/threshold form (C14_nc_prob measure statement), "
-              "a z-test of the NC fraction only in the thorough search; C14_parent_child_consistent_partial proves "
-              "get_parent(c)=p => c in get_children(p) (distinct particles, well-formed event), the converse "
-              "(uniqueness of the parent, which follows from WellFormed.flat) is not proved and is covered by the exact "
-              "tree run and the tree oracle; level consistency is proved as the defining recursion of get_from_level")
+              "a z-test of the NC fraction only in the thorough search; C14_parent_child_consistent is proved both ways (parent uniqueness from WellFormed.flat); level consistency is proved as the defining recursion of get_from_level")
 ASSUMPTIONS = ["np.interp / np.linspace / np.random.poisson modelled by their specification",
                "scipy.constants.N_A read from the installed scipy"]
 
@@ -428,6 +425,29 @@ def check_interaction(run, c, inject_all=None):
         run.fail_input("interaction", inp, observed=res, what="; ".join(bad))
 
 
+def check_energy_inputs(run, c):
+    """the energy given as Python int / numpy integer / 0-d array / float32 must give the interaction of the float64 energy
+    (same tape); secondaries off so that the recorded uniforms replay exactly"""
+    c = dict(c, sec=False, mode="nominal", inject=[])
+    Ei = int(round(c["E"]))
+    ref, err, tape = run_impl(run, dict(c, E=float(Ei)))
+    if ref is None:
+        return
+    for cls, val, tol in (("int", Ei, 1e-12), ("npint64", np.int64(Ei), 1e-12), ("zero_d", np.array(float(Ei)), 1e-12),
+                          ("float32", np.float32(Ei), 1e-5)):
+        want = ref
+        if cls == "float32":          # the float32 value is a different energy: compare with its own float64 reading
+            want, _, _ = run_impl(run, dict(c, E=float(np.float32(Ei)), inject=list(tape.us)))
+        got, err2, _ = run_impl(run, dict(c, E=val, inject=list(tape.us)))
+        ok = got is not None and want is not None and got["kind"] == want["kind"] and all(
+            fw.close(float(got[k]), float(want[k]), tol, 1e-300) for k in ("y", "em", "had", "sigma", "total", "L", "Ltot"))
+        if not ok:
+            run.fail_input("energy-input", {"case": {k: c[k] for k in ("type", "flavor", "anti", "model", "kind")}, "E": Ei,
+                                            "class": cls, "uniforms": list(tape.us)}, observed=got or err2, expected=want,
+                           what="interaction of an energy given as %s differs from the float64 evaluation" % cls)
+            return
+
+
 def check_grid(run, model, anti, Es):
     pp = P()
     tname = "nu_tau_bar" if anti else "nu_e"
@@ -528,6 +548,10 @@ def search(run, deep):
         c = draw_case(run)
         run.case(("oracle-interaction", c["type"], c["model"], c["sec"], c["kind"], c["E"]))
         check_interaction(run, c)
+    for i in range(300 if deep else 30):
+        c = draw_case(run)
+        run.case(("oracle-energy-input", c["type"], c["model"], c["kind"], int(round(c["E"]))))
+        check_energy_inputs(run, c)
     for model in ("gqrs", "ctw"):
         for anti in (0, 1):
             Es = sorted([float(x) for x in np.logspace(3, 12, 400 if deep else 60)] + [10 ** rng.uniform(3, 12) for _ in range(20)])
@@ -582,6 +606,9 @@ def replay(run, data):
             check_interaction(run, c)
         finally:
             me.Tape = orig
+    elif k == "energy-input":
+        cc = dict(i["case"], E=float(i["E"]), sec=False, mode="nominal", inject=[])
+        check_energy_inputs(run, cc)
     elif k in ("sigma-monotone", "cc-plus-nc"):
         E = i["E"]
         check_grid(run, i["model"], i["anti"], E if len(E) > 1 else [E[0], E[0] * 1.01])
